@@ -443,7 +443,8 @@ theorem resetProg_rebuilds : finalL false resetProg = true := by decide
 theorem stepProgClean_ok : progOK refClass stepProgClean = true := by decide
 /-- `step` as the code is does NOT respect the discipline (F-10: nmne_config / capture_nmne, F-11: global RNG) -/
 theorem stepProg_not_ok : progOK refClass stepProg = false := by decide
-theorem stepProg_leaks : unprotectedReads [] stepProg = [gNmne, gRng, gRng, gCapture] := by decide
+theorem stepProg_leaks : unprotectedReads [] stepProg = [gNmne, gRng, gRng, gRng, gCapture] := by decide
+theorem noSeed_not_ok : progOK refClass constructProgNoSeed = false ∧ progOK refClass resetProgNoSeed = false := by decide
 
 /-- Partial: excluding exactly the operations whose program is the leaking `step` (decidable hypothesis), the skeleton
 is isolated — construct and reset (with a seed) of other instances never disturb an instance. -/
